@@ -112,13 +112,17 @@ def run_history(kind, ops):
     notes = []
     got = []
 
-    def subscriber(i, bad):
+    once = set()
+
+    def subscriber(i, kind_):
         def cb(f):
             if obj.is_computed():
                 notes[i] += 1
             else:
                 notes[i] -= 100
-            if bad:
+            if kind_ == 2:
+                obj.on_computed.unsubscribe(cb)        # the one-shot idiom
+            if kind_ == 1:
                 raise RuntimeError("bad subscriber")
         return cb
 
@@ -160,11 +164,14 @@ def run_history(kind, ops):
             obj.reset_unsafe()
             st["runs"] = 0
             for i in range(len(notes)):
-                notes[i] = 0
+                if i not in once:
+                    notes[i] = 0
             r = ["ok"]
         elif op == "subscribe":
             notes.append(0)
-            obj.on_computed.subscribe(subscriber(len(notes) - 1, arg == 1))
+            if arg == 2:
+                once.add(len(notes) - 1)
+            obj.on_computed.subscribe(subscriber(len(notes) - 1, arg))
             r = ["ok"]
         elif op == "probe":
             r = ["notes"] + list(notes)
